@@ -128,6 +128,23 @@ fn run_entry(entry: &str, input: &[u8]) -> Option<bool> {
             let _ = key;
             !m.formatted().is_empty()
         }
+        // signing a message whose body is handed over as it is (binary encoding: no re-encoding, runs of blanks stay)
+        "dkimbin" => {
+            use lettre::message::dkim::*;
+            let body = lettre::message::Body::new_with_encoding(input.to_vec(), lettre::message::header::ContentTransferEncoding::Binary).ok()?;
+            let mut m = Message::builder().from("a@b.c".parse().ok()?).to("x@y.z".parse().ok()?).subject("s").body(body).ok()?;
+            for (h, b) in [(DkimCanonicalizationType::Relaxed, DkimCanonicalizationType::Relaxed), (DkimCanonicalizationType::Simple, DkimCanonicalizationType::Simple)] {
+                let cfg = DkimConfig::new(
+                    "s".into(),
+                    "d.example".into(),
+                    DkimSigningKey::new(include_str!("../../fixtures/dkim_ed25519.b64").trim(), DkimSigningAlgorithm::Ed25519).ok()?,
+                    vec![HeaderName::new_from_ascii_str("From"), HeaderName::new_from_ascii_str("Subject")],
+                    DkimCanonicalization { header: h, body: b },
+                );
+                m.sign(&cfg);
+            }
+            !m.formatted().is_empty()
+        }
         "dkimkey" => {
             use lettre::message::dkim::*;
             DkimSigningKey::new(&text(), DkimSigningAlgorithm::Rsa).is_ok() | DkimSigningKey::new(&text(), DkimSigningAlgorithm::Ed25519).is_ok()
